@@ -84,16 +84,16 @@ Print Assumptions C03_ancestors_sound.
 (** Non-vacuity: a five-node model (prior -> simulator -> summary -> discrepancy, with an
     observation) compiles, loads and executes; the discrepancy receives the tuple of the
     observed twin of its parent; only what is needed runs, once. *)
-Definition ex_st o op st ob uo ub : sstate :=
+Definition ex_st id o op st ob uo ub : sstate :=
   {| s_output := o; s_has_op := op; s_stochastic := st; s_observable := ob; s_uses_observed := uo;
-     s_uses_batch_size := ub; s_uses_meta := false; s_parameter := false |}.
+     s_uses_batch_size := ub; s_uses_meta := false; s_parameter := false; s_opid := id |}.
 Definition ex_src : snet :=
-  {| s_nodes := [("c"%string, ex_st (Some (VConst 1)) false false false false false);
-                 ("t"%string, ex_st None true true false false true);
-                 ("y"%string, ex_st None true true true false true);
-                 ("s"%string, ex_st None true false true false false);
-                 ("d"%string, ex_st None true false false true false);
-                 ("unused"%string, ex_st None true false false false false)];
+  {| s_nodes := [("c"%string, ex_st "c"%string (Some (VConst 1)) false false false false false);
+                 ("t"%string, ex_st "t"%string None true true false false true);
+                 ("y"%string, ex_st "y"%string None true true true false true);
+                 ("s"%string, ex_st "s"%string None true false true false false);
+                 ("d"%string, ex_st "d"%string None true false false true false);
+                 ("unused"%string, ex_st "unused"%string None true false false false false)];
      s_edges := [("c"%string, "t"%string, PInt 0); ("t"%string, "y"%string, PInt 0);
                  ("y"%string, "s"%string, PInt 0); ("s"%string, "d"%string, PInt 0)];
      s_observed := [("y"%string, VConst 7)] |}.
